@@ -189,6 +189,14 @@ func (w *Watcher) Run(ctx context.Context) error {
 		return fmt.Errorf("creating block poll connector failed: %w", err)
 	}
 
+	// Messages that were pending when a previous run of this watcher failed are still in w.pending. The new
+	// block poller starts switched off, so without this they would wait for the next unrelated message.
+	w.pendingMu.Lock()
+	if len(w.pending) != 0 {
+		w.ethConn.EnablePoller()
+	}
+	w.pendingMu.Unlock()
+
 	// Subscribe to new message publications. We don't use a timeout here because the LogPollConnector
 	// will keep running. Other connectors will use a timeout internally if appropriate.
 	messageC := make(chan *abi.AbiLogMessagePublished, 2)
